@@ -23,7 +23,8 @@ EXPLANATION = (
     'old signature entry and add the clone under the new name (and '
     'table_name for models); R-C11.5 RenameAppLabel moves the models into a '
     'signature created with app_id = the new label; '
-    'R-C11.6 ProjectSignature.get_app_sig resolves an app id by exact match before the legacy-label alias (shared with R-C15.5).')
+    'R-C11.6 ProjectSignature.get_app_sig resolves an app id by exact match before the legacy-label alias (shared with R-C15.5); '
+    'R-C11.7 a REFERENCES clause names the related primary key field\'s current column (shared with R-C01.10).')
 NOT_DECIDED = (
     'Absence of dangling references for all signatures and sequences; '
     'foreign-key validity in the database after the generated SQL.')
